@@ -490,3 +490,40 @@ def run_recorded(uni, reg, cls, cfg, hist, faults=None, judge=True):
         bz.reuse_z3_solver = saved
         if hasattr(bz._tls, "solver"):
             bz._tls.solver = None
+
+
+# ------------------------------------------------------------------------------------------------ _split_constraints
+def split_corr_lines(uni, rng, n, alphabet=None):
+    """correspondence of ConstrainedFrontend._split_constraints with Claripy.Solver.splitConstraints:
+    returns (request lines, expected answers)"""
+    from claripy.frontend.constrained_frontend import ConstrainedFrontend
+    alphabet = alphabet or (L.CONSTRAINTS + ["And(ULT(x, 3), y == 6)", "And(b, ULT(z, 2), x == 5)", "And(z == y, Or(b, x == 7))"])
+    var_index = {uni.real_names[nm]: i for i, nm in enumerate(uni.names)}
+    lines, expect = [], []
+    for _ in range(n):
+        cs = [uni.parse(rng.choice(alphabet)) for _ in range(rng.choice([0, 1, 2, 3, 5, 8]))]
+        splitted = []
+        for c in cs:
+            splitted.extend(list(c.args) if c.op == "And" else [c])
+        by_hash = {}
+        for i, c in enumerate(splitted):
+            by_hash.setdefault(c.hash(), []).append(i)
+        res = ConstrainedFrontend._split_constraints(cs)
+        groups, concrete = [], []
+        for names, clist in res:
+            if names == {"CONCRETE"}:
+                continue
+            vs = sorted(var_index[v] for v in names)
+            idx = sorted(set(i for c in clist for i in by_hash[c.hash()]))
+            groups.append(",".join(map(str, vs)) + ":" + ",".join(map(str, idx)))
+        concrete = [i for i, c in enumerate(splitted) if len(c.variables) == 0]
+        # identical conjuncts (same AST twice) are one constraint to the real function's index sets only by position;
+        # skip inputs with repeated conjuncts (the model is positional as the code is)
+        if any(len(v) > 1 for v in by_hash.values()):
+            continue
+        arg = "|".join(",".join(str(i) for i in sorted(var_index[v] for v in c.variables)) or "-" for c in splitted) or "-"
+        if not splitted:
+            continue
+        lines.append("split " + arg)
+        expect.append(";".join(sorted(groups)) + " concrete=" + ",".join(map(str, concrete)))
+    return lines, expect
